@@ -428,9 +428,68 @@ func runC19(seed int64, n int, dir string, tier string) *Report {
 	for j := 0; j < n/2+1; j++ {
 		rep.sameProcessHistory(g, cf)
 	}
+	rep.unsetDirectoryHistory()
 	rep.CasesFiles = cf.Write(filepath.Join(dir, "cases_C19"))
 	rep.ShardSize = shardSize
 	return rep
+}
+
+// unsetDirectoryHistory: a backend whose data directory was never configured (the state of
+// storage.NewFileSystem(), reader.New() and writer.New()). Nothing can be stored and nothing retrieved; above
+// all nothing may be written anywhere, the process's working directory included. One process, no draws.
+func (rep *Report) unsetDirectoryHistory() {
+	base, err := os.MkdirTemp("", "c19unset")
+	if err != nil {
+		return
+	}
+	defer os.RemoveAll(base)
+	cwd := filepath.Join(base, "cwd")
+	_ = os.Mkdir(cwd, 0o755)
+	d := sbom.NewDocument()
+	d.Metadata.Id = "urn:unset-directory"
+	d.Metadata.Name = "doc"
+	d.NodeList.AddRootNode(&sbom.Node{Id: "n", Name: "n"})
+	b, _ := proto.MarshalOptions{Deterministic: true}.Marshal(d)
+	df := filepath.Join(base, "doc.pb")
+	_ = os.WriteFile(df, b, 0o644)
+	idHex := hex.EncodeToString([]byte(d.Metadata.Id))
+	script := [][]string{{"store", df, "false"}, {"retrieve", idHex}, {"store", df, "nil"}, {"store", df, "true"}, {"retrieve", idHex}}
+	var sb strings.Builder
+	for _, c := range script {
+		j, _ := json.Marshal(c)
+		sb.Write(j)
+		sb.WriteByte('\n')
+	}
+	sf := filepath.Join(base, "script.jsonl")
+	_ = os.WriteFile(sf, []byte(sb.String()), 0o644)
+	cmd := exec.Command(storechildPath(), "script", "", sf)
+	cmd.Dir = cwd
+	outb, _ := cmd.Output()
+	lines := strings.Split(strings.TrimSpace(string(outb)), "\n")
+	rep.OracleEvals++
+	var desc []any
+	for i, c := range script {
+		co := childOut{Outcome: "exit"}
+		if i < len(lines) {
+			_ = json.Unmarshal([]byte(lines[i]), &co)
+		}
+		desc = append(desc, map[string]any{"op": c, "outcome": co.Outcome, "error": co.Error})
+		rep.Count("unset_directory_op=" + c[0] + ":" + co.Outcome)
+	}
+	in := map[string]any{"kind": "backend without a configured data directory, one process", "history": desc}
+	for i := range script {
+		if o := desc[i].(map[string]any)["outcome"]; o != "err" {
+			rep.Fail(Failure{What: "an operation on a backend without a configured data directory did not return an error", Detail: fmt.Sprintf("operation %d (%s): %v", i, script[i][0], o), Input: in})
+			break
+		}
+	}
+	if ents, _ := os.ReadDir(cwd); len(ents) > 0 {
+		var names []string
+		for _, e := range ents {
+			names = append(names, e.Name())
+		}
+		rep.Fail(Failure{What: "a backend without a configured data directory wrote into the process's working directory", Detail: strings.Join(names, ", "), Input: in})
+	}
 }
 
 func outcomePair(co childOut, tok int) string {
